@@ -498,6 +498,7 @@ func runC11(r *Run, verifDir string) {
 	c11M7(r)
 	c11M8(r)
 	c11M9(r)
+	c11M11(r, "C11.M11")
 	c11M6(r)
 }
 
@@ -1258,5 +1259,78 @@ func c11M9(r *Run) {
 		r.Unk("C11.M9", key, token.NoPos, "no assignment of Client.conn found")
 	default:
 		r.OK("C11.M9", key, token.NoPos, "%d assignment(s) of Client.conn, none of nil (or Close tests it)", n)
+	}
+}
+
+// c11M11: Close, Recv and Send of ttlv.Stream run concurrently by design (terminate closes the stream from another
+// goroutine to unblock the loop that sits in Recv or Send; the read and the write loop run side by side), so none of
+// the three may write a field of the stream that another of them accesses: a `s.inner = nil` in Close makes a Recv
+// that issues its next Read afterwards dereference nil and crash the process.
+func c11M11(r *Run, rule string) {
+	p := r.P
+	r.Rule(rule, "Stream.Close/Recv/Send do not write a field another of them accesses (they run concurrently)", 1)
+	type acc struct {
+		write bool
+		pos   token.Pos
+	}
+	methods := map[string]map[string][]acc{}
+	for _, name := range []string{"Close", "Recv", "Send"} {
+		fn := p.Func("ttlv", "Stream", name)
+		if fn == nil || fn.Blocks == nil || len(fn.Params) == 0 {
+			r.Unk(rule, "ttlv.Stream."+name, token.NoPos, "anchor missing")
+			return
+		}
+		m := map[string][]acc{}
+		seen := map[*ssa.Function]bool{}
+		var scan func(f *ssa.Function, recv ssa.Value, d int)
+		scan = func(f *ssa.Function, recv ssa.Value, d int) {
+			if f == nil || f.Blocks == nil || seen[f] || d > 3 {
+				return
+			}
+			seen[f] = true
+			allInstrs(f, func(in ssa.Instruction) {
+				switch x := in.(type) {
+				case *ssa.FieldAddr:
+					if typeName(x.X.Type()) != "Stream" || typePkgPath(x.X.Type()) != ttlvPath {
+						return
+					}
+					fld := fname(derefStruct(x.X.Type()).Field(x.Field))
+					w := false
+					for _, ref := range *x.Referrers() {
+						if st, ok := ref.(*ssa.Store); ok && st.Addr == ssa.Value(x) {
+							w = true
+						}
+					}
+					m[fld] = append(m[fld], acc{w, x.Pos()})
+				case *ssa.Call:
+					// helper methods on the same stream
+					if sc := x.Call.StaticCallee(); sc != nil && idOf(sc).pkg == ttlvPath && idOf(sc).recv == "Stream" {
+						scan(sc, nil, d+1)
+					}
+				}
+			})
+		}
+		scan(fn, fn.Params[0], 0)
+		methods[name] = m
+	}
+	bad := false
+	for a, ma := range methods {
+		for fld, accs := range ma {
+			for _, x := range accs {
+				if !x.write {
+					continue
+				}
+				for b, mb := range methods {
+					if a == b || len(mb[fld]) == 0 {
+						continue
+					}
+					bad = true
+					r.Bad(rule, "ttlv.Stream."+a+"/writes-"+fld+"/vs-"+b, x.pos, "Stream.%s writes the field %s that Stream.%s accesses: the two run concurrently (the connection is closed from another goroutine to unblock the loop sitting in %s), so this is a data race and, for a reset to nil, a nil dereference that crashes the process in a library goroutine", a, fld, b, b)
+				}
+			}
+		}
+	}
+	if !bad {
+		r.OK(rule, "ttlv.Stream/no-shared-write", token.NoPos, "no field written by one of Close/Recv/Send is accessed by another")
 	}
 }
